@@ -616,5 +616,18 @@ func c31GenCSV(t *rapid.T) *c31Case {
 		}
 		c.Want[r] = row
 	}
+	c31DrawFault(t, c)
 	return c
+}
+
+// c31DrawFault attaches a storage fault to an importable file: the backend
+// Write of every file, or of the k-th file (one hour partition of a multi-hour
+// import), fails during the import's flush.
+func c31DrawFault(t *rapid.T, c *c31Case) {
+	if !c31Chance(t, "storagefault", 12) {
+		return
+	}
+	c.Fault = c31Pick(t, "faultkind", "all", "nth:1", "nth:2", "nth:3")
+	c.class("fault:storage-write-" + c.Fault)
+	c.NonTrivial = true
 }
